@@ -30,6 +30,9 @@ type Case struct {
 	HLen       int
 	Opt82      string `json:",omitempty"` // "" | "typical" | "all-empty" | "all-one-byte"
 	HType      int    `json:",omitempty"` // header htype; 0 here = Ethernet (1)
+	XCode      int    `json:",omitempty"` // one more option of this code ...
+	XData      string `json:",omitempty"` // ... and payload (hex)
+	Hops, Secs int    `json:",omitempty"` // header fields the cascade does not look at
 }
 
 // opt82 builds relay-agent-information variants: whatever sub-options a relay adds, the
@@ -87,6 +90,11 @@ func request(c Case) []byte {
 	if c.Opt82 != "" {
 		p.Opts = append(p.Opts, pkt.Opt4{Code: 82, Data: opt82(c.Opt82)})
 	}
+	if c.XCode != 0 {
+		d, _ := hex.DecodeString(c.XData)
+		p.Opts = append(p.Opts, pkt.Opt4{Code: byte(c.XCode), Data: d})
+	}
+	p.Hops, p.Secs = byte(c.Hops), uint16(c.Secs)
 	return p.Bytes()
 }
 
@@ -232,7 +240,7 @@ func run(r *ev.Run) {
 								if bound != 0 && oob != 0 && oob != bound {
 									continue // a bound socket only receives on its interface
 								}
-								c := Case{gi, ci, yi, bc, rep, bound, oob, 6, "", 0}
+								c := Case{GI: gi, CI: ci, YI: yi, Bcast: bc, Reply: rep, Bound: bound, Oob: oob, HLen: 6}
 								if bound == 0 && oob == 0 {
 									// only where the answer is defined: routable destination
 									z := func(s string) bool { return s == "0.0.0.0" }
@@ -258,6 +266,30 @@ func run(r *ev.Run) {
 						}
 					}
 				}
+			}
+		}
+	}
+	// fields the cascade does not name: one representative per rule (x receiving interface)
+	// with every other option code in three payload shapes, and hops/secs values
+	if len(idx) > 0 {
+		for _, base := range []Case{
+			{GI: "10.1.2.3", CI: "0.0.0.0", YI: "10.0.0.50", Reply: "OFFER", HLen: 6},
+			{GI: "0.0.0.0", CI: "10.1.2.3", YI: "0.0.0.0", Reply: "NAK", HLen: 6},
+			{GI: "0.0.0.0", CI: "10.1.2.3", YI: "10.0.0.50", Reply: "ACK", HLen: 6},
+			{GI: "0.0.0.0", CI: "0.0.0.0", YI: "10.0.0.50", Reply: "OFFER", Bcast: true, HLen: 6},
+			{GI: "0.0.0.0", CI: "0.0.0.0", YI: "10.0.0.50", Reply: "OFFER", HLen: 6},
+			{GI: "0.0.0.0", CI: "0.0.0.0", YI: "10.0.0.50", Reply: "ACK", HLen: 6},
+		} {
+			base.Oob = idx[0]
+			for _, x := range pkt.Extra4(82) {
+				c := base
+				c.XCode, c.XData = int(x.Code), hex.EncodeToString(x.Data)
+				eval(r, c)
+			}
+			for _, hs := range [][2]int{{1, 0}, {16, 0}, {255, 65535}, {0, 1}} {
+				c := base
+				c.Hops, c.Secs = hs[0], hs[1]
+				eval(r, c)
 			}
 		}
 	}
